@@ -14,14 +14,14 @@ for d in seeded/*/; do
   exp=VIOLATION; case $id in neg-*) exp=OK;; esac
   res=$(tools/try_seed.sh $prop /verif/$d/patch.diff)
   by=$prop
-  if ! echo "$res" | grep -q "^VIOLATION"; then
+  if ! echo "$res" | grep -a -q "^VIOLATION"; then
     for cp in $cross; do
       res2=$(tools/try_seed.sh $cp /verif/$d/patch.diff)
-      if echo "$res2" | grep -q "^VIOLATION"; then res="$res2"; by="$cp (cross-check)"; break; fi
+      if echo "$res2" | grep -a -q "^VIOLATION"; then res="$res2"; by="$cp (cross-check)"; break; fi
     done
   fi
-  rules=$(echo "$res" | grep "^FINDING" | grep -o "rule=R[0-9.a-z]*" | sort -u | tr '\n' ' ')
-  verdict=$(echo "$res" | grep -q "^VIOLATION" && echo VIOLATION || (echo "$res" | grep -q "^OK" && echo OK || echo ERROR))
+  rules=$(echo "$res" | grep -a "^FINDING" | grep -o "rule=R[0-9.a-z]*" | sort -u | tr '\n' ' ')
+  verdict=$(echo "$res" | grep -a -q "^VIOLATION" && echo VIOLATION || (echo "$res" | grep -a -q "^OK" && echo OK || echo ERROR))
   echo "| $id | $by | $exp | $verdict | $rules |" >> $out
   echo "$id $by expected=$exp got=$verdict $rules"
 done
